@@ -317,7 +317,7 @@ def cases(ctx):
                   ["--seed", "3", "randkcnf", "3", "5", "4", "-T", "lift", "2"], ["op", "4", "--total", "-T", "or", "2"],
                   ["peb", "pyramid", "2", "-T", "xorcomp", "3", "2"], ["-of", "opb", "--varnames", "count", "4", "2"],
                   ["subgraph", "-G", "complete", "4", "-H", "complete", "2"], ["stone", "2", "path", "3", "--sparse", "1"]]
-    for _ in range(250 if tier == "quick" else 4000):
+    for _ in range(150 if tier == "quick" else 4000):
         a = list(rng.choice(seeds_argv))
         for _e in range(rng.choice([1, 1, 2])):
             k = rng.randrange(4)
